@@ -567,8 +567,14 @@ class WholeTableRoundTrip(_Patched, Contract):
             lookups = []
             lk = ot.Lookup(); lk.LookupType, lk.LookupFlag = 4, 0
             st = ot.LigatureSubst()
-            lig = ot.Ligature(); lig.Component, lig.LigGlyph = ["B"], "E"
-            st.ligatures = {"A": [lig]}
+            # the order inside a LigatureSet is the matching priority: a shorter sequence listed before a
+            # longer one with the same prefix must stay first
+            ligs = []
+            for comps, out in ((["B"], "E"), (["B", "C"], "D"), ([], "C")):
+                lig = ot.Ligature(); lig.Component, lig.LigGlyph = list(comps), out
+                ligs.append(lig)
+            lig2 = ot.Ligature(); lig2.Component, lig2.LigGlyph = ["A"], "E"
+            st.ligatures = {"A": ligs, "C": [lig2]}
             lk.SubTable = [st]; lookups.append(lk)
             lk = ot.Lookup(); lk.LookupType, lk.LookupFlag = 2, S.int("flag", 0, 15)
             st = ot.MultipleSubst(); st.mapping = {"E": ["A", "B"], "C": ["D"]}
